@@ -115,7 +115,9 @@ def step (w : SpecWorld) (op : Op) : SpecWorld × String :=
   | .new p hdr caches =>
     if w.isOpen then (w, "~none") else
     let user := hdr.getD []
-    if w.created then (w, "~err AlreadyExists")
+    -- two reasons to refuse at once: the property does not say which one is reported
+    if w.created && (innerHeader p user).length > 65535 then (w, "~err AlreadyExists|HeaderTooLarge")
+    else if w.created then (w, "~err AlreadyExists")
     else if (innerHeader p user).length > 65535 then (w, "~err HeaderTooLarge")
     else if w.stale.any (fun (n, _) => n == "index" || caches.any (fun B => n == s!"c{B}" || n == s!"c{B}i")) then
       (w, "~err AlreadyExists")
